@@ -113,10 +113,10 @@ def _geo(call):
                     cur = j
                     exp.append(cur)
                 p = [int(x) for x in paths[0]]
-                if p != exp or abs(float(dists[0]) - d) > 1e-9 * max(1.0, d):
+                if p != exp or not (abs(float(dists[0]) - d) <= 1e-9 * max(1.0, d)):
                     badp.append(f"projected path over far links from {start} max_length={ml}: {p} {float(dists[0])} expected {exp} {d}")
                 s_idx, s_d = flwp.snap(idxs=np.array([start]), max_length=ml, unit="m")
-                if int(s_idx[0]) != exp[-1] or abs(float(s_d[0]) - d) > 1e-6 * max(1.0, d):      # snap reports binary32 lengths
+                if int(s_idx[0]) != exp[-1] or not (abs(float(s_d[0]) - d) <= 1e-6 * max(1.0, d)):      # snap reports binary32 lengths
                     badp.append(f"projected snap over far links from {start}: {int(s_idx[0])} {float(s_d[0])} expected {exp[-1]} {d}")
         return [[0]] if not badp else [[1], badp[:3]]
     ds = nets.d8_decode(call["flw"], nr, nc)
@@ -141,7 +141,7 @@ def _geo(call):
             if p != exp or float(dists[0]) != d:
                 bad.append(f"geographic path from {start} max_length={ml}: {p} {float(dists[0])} expected {exp} {d}")
             s_idx, s_d = flw.snap(idxs=np.array([start]), max_length=ml, unit="m")
-            if int(s_idx[0]) != exp[-1] or abs(float(s_d[0]) - d) > 1e-6 * max(1.0, d):
+            if int(s_idx[0]) != exp[-1] or not (abs(float(s_d[0]) - d) <= 1e-6 * max(1.0, d)):
                 bad.append(f"geographic snap from {start}: {int(s_idx[0])} {float(s_d[0])} expected {exp[-1]} {d}")
     return [[0]] if not bad else [[1], bad[:3]]
 
